@@ -126,7 +126,7 @@ PROPS = {
             "max_success": {"quick": 1500, "thorough": 20000}},
     "C08": {"id": "C08", "fuzz": True, "full_O0": True, "source": "c08.cpp", "files": INT_VEC_FILES + FLT_VEC_FILES, "min_configs": {"quick": 8, "thorough": 30}, "configs": cfgs_with_O0,
             "optional_classes": ["range_ends_at_guard_page", "range_starts_after_guard_page", "wild_index_in_inactive_lane", "n_zero_pointer_into_guard_page"]},
-    "C09": {"id": "C09", "full_O0": True, "source": "c08.cpp", "cxxflags": ["-DVP_PROP_C09"], "files": INT_VEC_FILES + FLT_VEC_FILES, "min_configs": {"quick": 8, "thorough": 30}, "configs": cfgs_with_O0,
+    "C09": {"id": "C09", "full_O0": True, "source": "c08.cpp", "cxxflags": ["-DVP_PROP_C09", "-pthread"], "ldflags": ["-pthread"], "files": INT_VEC_FILES + FLT_VEC_FILES, "min_configs": {"quick": 8, "thorough": 30}, "configs": cfgs_with_O0,
             "optional_classes": ["unaligned_address", "negative_index", "ordinary"]},
     "C10": {"id": "C10", "source": "c10.cpp", "files": FLT_VEC_FILES + SCALAR_FILES[8:], "min_configs": {"quick": 8, "thorough": 30}, "configs": cfgs_default_fp,
             "cxxflags": ["-frounding-math", "-ffp-contract=off"], "ref_sources": FPREF, "max_success": {"quick": 1000, "thorough": 10000}},
